@@ -4,7 +4,7 @@
    of Gen.C01model, the netlists of the returned Thevenin / Norton models, and
    the boolean checkers the correspondence evaluation runs under vm_compute.
    The theorems about these definitions are in Gen.C04. *)
-Require Import LT.FieldSec LT.Circuit LT.MNA LT.TheveninOnePort Gen.StampsGen Gen.C01model.
+Require Import LT.FieldSec LT.Circuit LT.MNA LT.TheveninOnePort LT.TheveninDense Gen.StampsGen Gen.C01model.
 Local Open Scope Z_scope.
 Local Open Scope bool_scope.
 
@@ -51,12 +51,35 @@ Definition thevenin_net kd p m a f (Voc Zth : K) : netlist :=
 (* norton(): I(Isc) | Y(Yth), both from p to m *)
 Definition norton_net kd p m (Isc Yth : K) : netlist :=
   [(cI, ctx2 kd p m 0 f0 Isc f0); (cRC, ctx2 kd p m 0 f0 f0 Yth)].
+
+(* decidable well-formedness of a netlist (Gen.C01model.wf_net) *)
+Definition wf_ctxb (c : sctx K) : bool :=
+  (-1 <=? p0 c) && (-1 <=? p1 c) && (-1 <=? p2 c) && (-1 <=? p3 c) && (-1 <=? c0 c) && (-1 <=? c1 c) &&
+  (0 <=? bown c) && (0 <=? bextra c) && (0 <=? bctrl c) && (0 <=? bL1 c) && (0 <=? bL2 c).
+Definition preb (cl : cname) (c : sctx K) : bool :=
+  match cl with
+  | cCCCS => ctrl_is_vsrc c
+  | cK => negb (akind_eqb (kind c) KT || akind_eqb (kind c) KTime)
+  | cTL => akind_eqb (kind c) KS || akind_eqb (kind c) KDc
+  | cTPA | cTPB | cTPG | cTPH | cTPY | cTPZ => negb (tp_has_src c)
+  | _ => true
+  end.
+Definition wf_netb (N : netlist) : bool := forallb (fun e => wf_ctxb (snd e) && preb (fst e) (snd e)) N.
+(* well-posedness certificate: the netlist is well-formed, the stamps of the KILLED netlist stay inside the
+   nn + mm unknowns, and B is a left inverse of its system matrix.  Gen.C04cert.cert_determined: then the
+   netlist is determined from every port among the first nn nodes (hypothesis of port_affine). *)
+Definition cert (N : netlist) (nn mm : nat) (B : list (list K)) : bool :=
+  wf_netb N &&
+  match assemble (killnet N) with
+  | SOk T => sys_cols_ok T nn mm && is_left_inverse T nn mm B
+  | SErr => false
+  end.
 End C04model.
+Arguments wf_ctxb {K}. Arguments preb {K}. Arguments wf_netb {K}. Arguments cert {K}.
 Arguments zero_ctx {K}. Arguments killnet {K}. Arguments m_kill {K}. Arguments m_kill1 {K}. Arguments m_apply_test_current {K}.
 Arguments m_apply_test_voltage {K}. Arguments m_Isc_net {K}. Arguments m_test_I {K}. Arguments m_test_V {K}. Arguments m_short {K}.
 Arguments thevenin_net {K}. Arguments norton_net {K}. Arguments ctx2 {K}. Arguments drop_ic {K}. Arguments zero_par {K}.
 Arguments is_indep : clear implicits.
-
 (* ---- checkers over Qc (evaluated by vm_compute in the generated cases files) ---- *)
 Definition qz : Qc := 0%Qc.
 (* x = node potentials (nn of them) followed by branch currents: does it solve
@@ -93,25 +116,8 @@ Definition c_line_no (Isc Yth u j : Qc) : bool := qc_eqb j (Qcminus Isc (Qcmult 
 (* thevenin_norton identities on reported values *)
 Definition c_ident (Voc Isc Zth Yth : Qc) : bool := qc_eqb (Qcmult Isc Zth) Voc && qc_eqb (Qcmult Zth Yth) 1%Qc.
 
-(* well-posedness certificate: B is a left inverse of the model's system matrix
-   (rows/columns: nn node unknowns then mm branch unknowns) *)
-Definition a_entry (T : list (upd QcF)) (nn : nat) (i j : nat) : Qc :=
-  let r := Z.of_nat (if Nat.ltb i nn then i else i - nn) in
-  let c := Z.of_nat (if Nat.ltb j nn then j else j - nn) in
-  entry T (if Nat.ltb i nn then (if Nat.ltb j nn then MG else MB) else (if Nat.ltb j nn then MC else MD)) r c.
-Fixpoint dotq (a b : list Qc) : Qc := match a, b with x :: a', y :: b' => Qcplus (Qcmult x y) (dotq a' b') | _, _ => qz end.
-Definition c_inv (es : list raw) (nn mm : nat) (B : list (list Qc)) : bool :=
-  match model_T es with
-  | None => false
-  | Some T =>
-      let n := (nn + mm)%nat in
-      let cols := map (fun j => map (fun k => a_entry T nn k j) (seq 0 n)) (seq 0 n) in
-      Nat.eqb (length B) n &&
-      forallb (fun ib => let i := fst ib in let row := snd ib in
-                 Nat.eqb (length row) n &&
-                 forallb (fun jc => qc_eqb (dotq row (snd jc)) (if Nat.eqb i (fst jc) then 1%Qc else qz)) (combine (seq 0 n) cols))
-              (combine (seq 0 n) B)
-  end.
+(* well-posedness certificate for the model netlist of a dumped circuit *)
+Definition c_inv (es : list raw) (nn mm : nat) (B : list (list Qc)) : bool := cert (K:=QcF) (model_net es) nn mm B.
 
 (* one-port trees *)
 Definition c_th (t : tree QcF) (V Zt : Qc) : bool :=
